@@ -224,17 +224,19 @@ def _construction(prog, chk, R, ex, ev):
         chk.ob('R08.1', f, f.ln, ok and ok2, 'the consumed-super flag is set only when statement 0 is a call on `super`, whose arguments are the only expressions the chain itself evaluates',
                key='chain:super-consumed')
     # `new`: the chain is started on the class stamped on the object
-    g2 = prog.cfg(ev)
-    starts = [c for c in g2.calls(lambda e: e['k'] == 'mcall' and e.get('callee') == f.name)]
+    starts = []
+    for m in [ev] + [m_ for m_ in prog.methods_of(ev.cls) if m_ is not ev and m_ is not f and m_.body]:
+        gm = prog.cfg(m)
+        starts += [(m, gm, c) for c in gm.calls(lambda e: e['k'] == 'mcall' and e.get('callee') == f.name)]
     chk.count('constructor chain starts in eval', len(starts), 1)
-    for c in starts:
+    for evm, g2, c in starts:
         a = _args(c.e)
         a0, a1 = SX.strip(a[0]), SX.strip(a[1])
         stamped = [n for n, l, r, op in g2.writes() if _member_of(l, 'cls') and SX.is_node(SX.strip(l).get('base')) and
                    _mentions(SX.strip(l)['base'], lambda x: x.get('k') == 'ref' and x.get('id') == a1.get('id')) and
                    SX.is_node(SX.strip(r)) and SX.strip(r).get('id') == a0.get('id')]
         ok = a0.get('k') == 'ref' and a1.get('k') == 'ref' and bool(stamped) and g2.must_precede(set(stamped), c)
-        chk.ob('R08.1', ev, c.ln or ev.ln, ok, '`new` runs the chain of exactly the class it recorded as the object\'s dynamic class (%s)' % SX.show(c.e)[:70], key='new:class-agrees')
+        chk.ob('R08.1', evm, c.ln or evm.ln, ok, '`new` runs the chain of exactly the class it recorded as the object\'s dynamic class (%s)' % SX.show(c.e)[:70], key='new:class-agrees')
 
 
 def _field_initialisers(prog, chk, R, ev):
@@ -474,9 +476,36 @@ def _is_iter_end_test(p, pol, itid):
 
 
 def _vtable_registration(prog, chk, R):
-    builders = [f for f in R.ev_methods() if f.body and f.short in ('buildClassTable', 'instantiateGeneric') and
-                any(x.get('k') == 'member' and x.get('name') == 'vtable' for x in SX.walk(f.body, into_lambdas=False))]
-    chk.count('class-table builders that fill a vtable', len(builders), 2)
+    # builders: evaluator methods that write a vtable (slot or whole table); creators: methods that make a RuntimeClass —
+    # every creator must be, or reach through evaluator calls, a builder (the two may be one shared helper)
+    def _writes_vtable(f):
+        for n in SX.walk(f.body, into_lambdas=False):
+            w = SX.write_target(n)
+            if w:
+                l0 = SX.strip(w[0])
+                if (SX.is_node(l0) and l0.get('k') == 'index' and _member_of(l0.get('base'), 'vtable')) or _member_of(l0, 'vtable'):
+                    return True
+        return False
+    evm = [f for f in R.ev_methods() if f.body]
+    builders = [f for f in evm if _writes_vtable(f)]
+    creators = [f for f in evm if any(x.get('k') == 'call' and 'make_shared' in x.get('callee', '') and 'RuntimeClass' in (x.get('callee', '') + x.get('t', ''))
+                                      for x in SX.walk(f.body, into_lambdas=False))]
+    chk.count('class-table builders that fill a vtable', len(builders), 1)
+    chk.count('functions that create runtime classes', len(creators), 2)
+    bkeys = {b.key for b in builders}
+    evkeys = {f.key for f in evm}
+    for f in creators:
+        seen, todo, hit = {f.key}, [f], f.key in bkeys
+        while todo and not hit:
+            cur = todo.pop()
+            for _, ts in prog.callees(cur):
+                for t in ts:
+                    if t.key in bkeys:
+                        hit = True
+                    if t.key in evkeys and t.key not in seen and t.body:
+                        seen.add(t.key)
+                        todo.append(t)
+        chk.ob('R08.3', f, f.ln, hit, '%s creates runtime classes and fills (itself or through a helper) their vtable' % f.short, key='vtable:creator:' + f.short)
     for f in builders:
         g = prog.cfg(f)
         regs, copies = [], []
